@@ -3,6 +3,7 @@ package main
 import (
 	"go.uber.org/zap/verif/props/c03"
 	"go.uber.org/zap/verif/props/c05"
+	"go.uber.org/zap/verif/props/c06"
 	"go.uber.org/zap/verif/props/c07"
 	"go.uber.org/zap/verif/props/c10"
 	"go.uber.org/zap/verif/props/c11"
@@ -34,5 +35,6 @@ func init() {
 	register("C19", "fault_enumeration", c19.Run, nil)
 	register("C11", "exploration", c11.Run, c11.Child)
 	register("C12", "fault_enumeration", c12.Run, c12.Child)
+	register("C06", "exploration", c06.Run, c06.Child)
 	register("C02", "exploration", encjson.Run02, nil)
 }
